@@ -273,7 +273,7 @@ pub struct RHttp {
     /// '0', '1', '*'
     pub ver: char,
     pub horder: Vec<RHdr>,
-    pub habsent: Vec<String>,
+    pub habsent: Vec<RHdr>,
     pub expsw: String,
 }
 pub fn print_hdr(h: &RHdr) -> String {
@@ -290,7 +290,7 @@ pub fn print_http(s: &RHttp) -> String {
         "{}:{}:{}:{}",
         s.ver,
         s.horder.iter().map(print_hdr).collect::<Vec<_>>().join(","),
-        s.habsent.join(","),
+        s.habsent.iter().map(print_hdr).collect::<Vec<_>>().join(","),
         s.expsw
     )
 }
